@@ -2922,7 +2922,11 @@ let split_step st line =
     sstate -> char list list -> char list list * exn option **)
 
 let rec split_lines st = function
-| [] -> ([], (if Nat.eqb st.unmatched O then None else Some ParserError))
+| [] ->
+  ([],
+    (if negb st.complete
+     then Some ParserError
+     else if Nat.eqb st.unmatched O then None else Some ParserError))
 | line :: rest ->
   (match split_step st line with
    | StCont st' -> split_lines st' rest
@@ -3836,7 +3840,10 @@ let rec equations_of = function
 | [] -> []
 | s :: r ->
   (match s.sequation with
-   | Some e -> e :: (equations_of r)
+   | Some e ->
+     (match s.stype with
+      | TEndogenous -> e :: (equations_of r)
+      | _ -> equations_of r)
    | None -> equations_of r)
 
 (** val symbols_to_graph_M : symbol list -> graph outcome **)
